@@ -19,6 +19,7 @@ func C15(c *Ctx) {
 	c.R.Rule("C15-R1", "E3", "report and apply are paired", 5)
 	c.R.Rule("C15-R2", "E6", "field exhaustiveness of the change report and its consumers", 6)
 	c.R.Rule("C15-R5", "E6", "the copy the store keeps of a reported spec source is faithful", 1)
+	c.shareRule("C09", "C09-R1", "C15-R7", "what the engine puts into bindings survives the store's JSON form unchanged (a state equal as text behaves equally)")
 	c.R.Rule("C15-R6", "E1", "nothing behaviour-relevant lives outside the reported node and bindings: no script runtime outlives an execution", 3)
 	if ea, ex := c.ecmaAnalysis(); ea != nil {
 		c.runtimeFresh("C15-R6", ea, ex)
